@@ -592,6 +592,6 @@ pub fn run(r: &mut Runner) {
         }
         crate::hist::explore(r, "histories: TwoFloat -> integer conversions (narrow and wide, two values)", &groups, 3, &hist_judge, 14u64 << 55);
         // cross-family histories: the same judged calls, preceded by every other public function on the same operands
-        crate::hist::explore_mixed(r, "cross-family histories: any public call, then TwoFloat -> integer conversions (narrow and wide, two values)", &groups[..groups.len().min(2)], 2, &hist_judge, (14u64 << 55) + (1u64 << 53));
+        crate::hist::explore_mixed(r, "cross-family histories: any public call, then TwoFloat -> integer conversions (narrow and wide, two values)", &groups, 2, &hist_judge, (14u64 << 55) + (1u64 << 53));
     }
 }
